@@ -162,7 +162,11 @@ let rec parse_ops n ts acc =
              let (p, ts') = parse_pobj ts in objs (m - 1) ts' (p :: acc) in
          let (os, r3) = objs (int_of_string m) r2 [] in
          (match r3 with
-          | big :: r4 -> parse_ops (n - 1) r4 (WriteCompressed (rs, os, big = "1") :: acc)
+          | nb :: r4 ->
+            let rec flags k ts acc = if k = 0 then (Stdlib.List.rev acc, ts) else
+                match ts with b :: ts' -> flags (k - 1) ts' ((b = "1") :: acc) | [] -> raise (Bad "C flags") in
+            let (bigs, r5) = flags (int_of_string nb) r4 [] in
+            parse_ops (n - 1) r5 (WriteCompressed (rs, os, bigs) :: acc)
           | [] -> raise (Bad "C"))
        | [] -> raise (Bad "C"))
     | "O" :: a :: b :: r ->
